@@ -35,23 +35,6 @@ open EasyMl EasyMl.Spec EasyMl.Iter
 
 /-! ## tape positions -/
 
-/-- one append request: what is appended never matters for where it lands -/
-inductive Append (R : Type) where
-  | nullary
-  | unary (parent : Nat) (derivative : R)
-  | binary (leftParent : Nat) (leftDerivative : R) (rightParent : Nat) (rightDerivative : R)
-
-/-- run a sequence of appends on a tape: the positions handed out and the final tape -/
-def appendAll {R : Type} [Zero R] : Tape R → List (Append R) → List Nat × Tape R
-  | t, [] => ([], t)
-  | t, a :: rest =>
-    let r := match a with
-      | .nullary => t.appendNullary
-      | .unary p d => t.appendUnary p d
-      | .binary lp ld rp rd => t.appendBinary lp ld rp rd
-    let rr := appendAll r.2 rest
-    (r.1 :: rr.1, rr.2)
-
 /-- **Tape positions are a function of the append order only.**  Every append hands out the
     current length of the tape and makes the tape one entry longer, whatever is appended; so the
     `i`-th of any sequence of appends lands at `initial length + i`, for all values, parents and
